@@ -28,6 +28,7 @@ StartsWith(t, p) ==   \* str::starts_with on the universe
   \/ p = "" \/ p = t
   \/ (p = "a" /\ t \in {"a", "a::b", "ab"})
   \/ (p = "skip" /\ t \in {"skip", "skip::x", "skipper"})
+  \/ (p = "my-app" /\ t \in {"my-app", "my-app::db"})              \* a hyphen is an ordinary character of a target
 
 \* a collector accepts levels up to `cap`, announced through max_level_hint (hint), checked in enabled() (inen), or both;
 \* with neither it accepts every level
@@ -80,7 +81,14 @@ ExpectedRecords(d, module) ==
          << [what |-> "new", level |-> d.level, target |-> IF AnyPresent(d) THEN tgt ELSE "tracing::span", alt |-> tgt] >>
          \o [i \in 1..Len(SelectSeq(d.record, LAMBDA r : r.declared)) |-> [what |-> "record", level |-> d.level, target |-> tgt]]
          \o << [what |-> "enter", level |-> 5, target |-> "tracing::span::active"],
-               [what |-> "exit", level |-> 5, target |-> "tracing::span::active"],
-               [what |-> "close", level |-> 5, target |-> "tracing::span"] >>
+               [what |-> "exit", level |-> 5, target |-> "tracing::span::active"] >>
+         \* d.guard2: the driver additionally clones the handle, enters it through the owned guard, exits and drops the clone:
+         \* one more enter, one more exit, and the close of that handle
+         \o (IF "guard2" \in DOMAIN d /\ d.guard2
+             THEN << [what |-> "enter", level |-> 5, target |-> "tracing::span::active"],
+                     [what |-> "exit", level |-> 5, target |-> "tracing::span::active"],
+                     [what |-> "close", level |-> 5, target |-> "tracing::span"] >>
+             ELSE << >>)
+         \o << [what |-> "close", level |-> 5, target |-> "tracing::span"] >>
   ELSE << >>
 =============================================================================
